@@ -5,6 +5,7 @@ import Driver.OpsAlloc
 import Driver.OpsFn
 import Driver.OpsC03
 import Driver.OpsSym
+import Driver.OpsBot
 namespace Driver
 
 def handlers : List Handler := [
@@ -15,6 +16,7 @@ def handlers : List Handler := [
   handleC03,
   handleSym,
   handleEval,
+  handleBot,
 ]
 
 def step (st : St) (line : String) : St × String :=
